@@ -809,6 +809,304 @@ theorem gen_vcf_header :
 theorem gen_fastq : Gen.C03.fastqMarker = 64 ∧ Gen.C03.fastqLineOffsets = [1, 0, 0, 0] ∧
     Gen.C03.fastqLinesPerEntry = 4 ∧ Gen.C03.fastaMarker = 62 := by decide
 
+/-! ### model-level round trip through the reader model of C02 -/
+
+open C02 (Col Schema columnOf)
+
+/-- a cell fits a column kind -/
+def cellFits (k : String) : Cell → Prop
+  | .int i => k = "sint" ∨ k = "oint" ∨ (k = "int" ∧ 0 ≤ i)
+  | .text t => (k = "str" ∨ k = "float" ∨ (k = "id" ∧ t.getLast? ≠ some 0) ∨ (k = "strand" ∧ t.length = 1 ∧ t.all C02.strandOK = true))
+      ∧ 9 ∉ t ∧ 10 ∉ t ∧ 13 ∉ t
+  | .ints _ => k = "ilist"
+  | .qual _ => False
+
+/-- the parsed column that a list of cells of one kind denotes -/
+def colOf (k : String) (cells : List Cell) : Col :=
+  if k = "int" ∨ k = "sint" ∨ k = "oint" then Col.ints (cells.map (fun c => match c with | .int i => i | _ => 0))
+  else if k = "ilist" then Col.intLists (cells.map (fun c => match c with | .ints l => l | _ => []))
+  else if k = "float" then Col.floats (cells.map cellText)
+  else Col.strs (cells.map cellText)
+
+theorem specNatI_formatInt (i : Int) (h : 0 ≤ i) : C02.specNatI (formatInt i) = some i := by
+  unfold formatInt
+  have : ¬ i < 0 := by omega
+  simp only [this, if_false]
+  unfold C02.specNatI
+  rw [specNat_formatNat]
+  simp only [Int.ofNat_eq_natCast, Option.some.injEq]
+  omega
+
+theorem specOInt_formatInt (i : Int) : C02.specOInt (formatInt i) = some i := by
+  unfold C02.specOInt
+  have h1 : formatInt i ≠ [] := formatInt_ne_nil i
+  have h2 : formatInt i ≠ [46] := by
+    intro h
+    have := formatInt_bytes i 46 (by rw [h]; simp)
+    omega
+  simp [h1, h2, parse_format_int]
+
+theorem specColumn_cells (k : String) (hk : C02.modelledKind k) (cells : List Cell) (hfit : ∀ c ∈ cells, cellFits k c) :
+    C02.specColumn k (cells.map cellText) = some (colOf k cells) := by
+  unfold C02.specColumn colOf
+  by_cases h1 : k = "int"
+  · subst h1
+    simp only [if_true]
+    rw [C02.omap_map, omap_some_map _ (fun c => match c with | .int i => i | _ => 0)]
+    · rfl
+    · intro c hc
+      have := hfit c hc
+      cases c with
+      | int i =>
+        simp only [cellFits] at this
+        rcases this with h | h | h
+        · exact absurd h (by decide)
+        · exact absurd h (by decide)
+        · exact specNatI_formatInt i h.2
+      | text t => simp only [cellFits] at this; rcases this.1 with h | h | h | h <;> first | exact absurd h (by decide) | exact absurd h.1 (by decide)
+      | ints l => simp only [cellFits] at this; exact absurd this (by decide)
+      | qual q => exact absurd this id
+  · by_cases h2 : k = "sint"
+    · subst h2
+      simp only [h1, if_false, if_true, true_or, or_true]
+      rw [C02.omap_map, omap_some_map _ (fun c => match c with | .int i => i | _ => 0)]
+      · rfl
+      · intro c hc
+        have := hfit c hc
+        cases c with
+        | int i => exact parse_format_int i
+        | text t => simp only [cellFits] at this; rcases this.1 with h | h | h | h <;> first | exact absurd h (by decide) | exact absurd h.1 (by decide)
+        | ints l => simp only [cellFits] at this; exact absurd this (by decide)
+        | qual q => exact absurd this id
+    · by_cases h3 : k = "oint"
+      · subst h3
+        simp only [h1, h2, if_false, if_true, true_or, or_true]
+        rw [C02.omap_map, omap_some_map _ (fun c => match c with | .int i => i | _ => 0)]
+        · rfl
+        · intro c hc
+          have := hfit c hc
+          cases c with
+          | int i => exact specOInt_formatInt i
+          | text t => simp only [cellFits] at this; rcases this.1 with h | h | h | h <;> first | exact absurd h (by decide) | exact absurd h.1 (by decide)
+          | ints l => simp only [cellFits] at this; exact absurd this (by decide)
+          | qual q => exact absurd this id
+      · have hnum : ¬ (k = "int" ∨ k = "sint" ∨ k = "oint") := by simp [h1, h2, h3]
+        simp only [h1, h2, h3, hnum, if_false]
+        -- the remaining kinds hold text or int lists
+        have htext : ∀ c ∈ cells, k ≠ "ilist" → ∃ t, c = Cell.text t ∧
+            ((k = "str" ∨ k = "float" ∨ (k = "id" ∧ t.getLast? ≠ some 0) ∨ (k = "strand" ∧ t.length = 1 ∧ t.all C02.strandOK = true))) := by
+          intro c hc hk
+          have := hfit c hc
+          cases c with
+          | int i => simp only [cellFits] at this; rcases this with h | h | h <;> first | exact absurd h h2 | exact absurd h h3 | exact absurd h.1 h1
+          | text t => exact ⟨t, rfl, this.1⟩
+          | ints l => exact absurd this hk
+          | qual q => exact absurd this id
+        by_cases h4 : k = "id"
+        · subst h4
+          simp only [if_true]
+          have hall : (cells.map cellText).all (fun t => t.getLast? != some 0) = true := by
+            rw [List.all_eq_true]
+            intro t ht
+            simp only [List.mem_map] at ht
+            obtain ⟨c, hc, rfl⟩ := ht
+            obtain ⟨t', rfl, hk⟩ := htext c hc (by decide)
+            rcases hk with h | h | h | h
+            · exact absurd h (by decide)
+            · exact absurd h (by decide)
+            · simpa [cellText] using h.2
+            · exact absurd h.1 (by decide)
+          simp [hall]
+        · by_cases h5 : k = "str"
+          · subst h5; simp
+          · by_cases h6 : k = "float"
+            · subst h6; simp
+            · by_cases h7 : k = "ilist"
+              · subst h7
+                simp only [h4, h5, h6, if_false, if_true]
+                rw [C02.omap_map, omap_some_map _ (fun c => match c with | .ints l => l | _ => [])]
+                · rfl
+                · intro c hc
+                  have := hfit c hc
+                  cases c with
+                  | int i => simp only [cellFits] at this; rcases this with h | h | h <;> first | exact absurd h (by decide) | exact absurd h.1 (by decide)
+                  | text t => simp only [cellFits] at this; rcases this.1 with h | h | h | h <;> first | exact absurd h (by decide) | exact absurd h.1 (by decide)
+                  | ints l =>
+                    have := readCell_cellText (Cell.ints l) (fun _ _ => trivial)
+                    simp only [readCell, cellText, Option.map_eq_some_iff] at this
+                    obtain ⟨l', hl', hinj⟩ := this
+                    simp only [Cell.ints.injEq] at hinj
+                    subst hinj
+                    simpa [cellText] using hl'
+                  | qual q => exact absurd this id
+              · by_cases h8 : k = "strand"
+                · subst h8
+                  simp only [h4, h5, h6, h7, if_false, if_true]
+                  have hall : (cells.map cellText).all (fun t => t.length == 1 && t.all C02.strandOK) = true := by
+                    rw [List.all_eq_true]
+                    intro t ht
+                    simp only [List.mem_map] at ht
+                    obtain ⟨c, hc, rfl⟩ := ht
+                    obtain ⟨t', rfl, hk⟩ := htext c hc (by decide)
+                    rcases hk with h | h | h | h
+                    · exact absurd h (by decide)
+                    · exact absurd h (by decide)
+                    · exact absurd h.1 (by decide)
+                    · simp [cellText, h.2.1, h.2.2]
+                  simp [hall]
+                · exfalso
+                  unfold C02.modelledKind at hk
+                  rcases hk with h | h | h | h | h | h | h | h
+                  · exact h1 h
+                  · exact h2 h
+                  · exact h3 h
+                  · exact h4 h
+                  · exact h5 h
+                  · exact h6 h
+                  · exact h7 h
+                  · exact h8 h
+
+def colsFrom (rows : List Row) : Nat → List String → List Col
+  | _, [] => []
+  | j, k :: ks => colOf k (columnOf rows j) :: colsFrom rows (j + 1) ks
+
+theorem specColumnsFrom_cells (rows : List Row) (ks : List String) (j : Nat)
+    (hmod : ∀ k ∈ ks, C02.modelledKind k)
+    (hfit : ∀ i k, ks[i]? = some k → ∀ c ∈ columnOf rows (j + i), cellFits k c) :
+    C02.specColumnsFrom (rows.map (fun r => r.map cellText)) j ks = some (colsFrom rows j ks) := by
+  induction ks generalizing j with
+  | nil => rfl
+  | cons k rest ih =>
+    simp only [C02.specColumnsFrom, colsFrom]
+    rw [C02.columnOf_map, specColumn_cells k (hmod k (by simp)) _ (fun c hc => hfit 0 k (by simp) c (by simpa using hc))]
+    rw [ih (j + 1) (fun k' hk' => hmod k' (by simp [hk']))
+      (fun i k' hi c hc => hfit (i + 1) k' (by simpa using hi) c (by
+        have : j + (i + 1) = j + 1 + i := by omega
+        rw [this]; exact hc))]
+
+theorem cellText_bytes_fit (k : String) (c : Cell) (h : cellFits k c) :
+    ∀ x ∈ cellText c, x ≠ 9 ∧ x ≠ 10 ∧ x ≠ 13 := by
+  intro x hx
+  cases c with
+  | text t =>
+    obtain ⟨_, h9, h10, h13⟩ := h
+    simp only [cellText] at hx
+    exact ⟨fun e => h9 (e ▸ hx), fun e => h10 (e ▸ hx), fun e => h13 (e ▸ hx)⟩
+  | int i =>
+    rcases formatInt_bytes i x hx with h' | h' <;> omega
+  | ints l =>
+    simp only [cellText] at hx
+    rcases joinWith_mem 44 _ x hx with h' | ⟨f, hf, hxf⟩
+    · omega
+    · simp only [List.mem_map] at hf
+      obtain ⟨i, _, rfl⟩ := hf
+      rcases formatInt_bytes i x hxf with h' | h' <;> omega
+  | qual q => exact absurd h id
+
+/-- **write_read_model.** Model-level round trip through BOTH models: for every schema of the modelled column types
+and every non-empty table whose cells fit their column kinds (text free of TAB/LF/CR; unsigned columns non-negative),
+parsing — with the model of the code's reader (offset table, CR rule, digit matrix / sign path, padded identifiers,
+list split) — the bytes produced by the model of the code's writer (column interleave, `ints_to_strings` text)
+returns exactly the table, column by column, with one entry per row. -/
+theorem write_read_model (S : Schema) (sks : List String) (rows : List Row)
+    (hk : S.cols.map (·.2) = sks.map C02.normKind) (hS : S.delim = 9)
+    (hmod : ∀ k ∈ sks, C02.modelledKind k)
+    (hrows : rows ≠ []) (hn : 0 < sks.length) (hrect : ∀ r ∈ rows, r.length = sks.length)
+    (hfit : ∀ i k, sks[i]? = some k → ∀ c ∈ columnOf rows i, cellFits k c) :
+    C02.parseDelimited S (dumpDelimited sks.length rows) = .ok (rows.length, colsFrom rows 0 sks) := by
+  -- every cell fits some kind, hence its text has no TAB / LF / CR
+  have hcell : ∀ r ∈ rows, ∀ c ∈ r, ∀ x ∈ cellText c, x ≠ 9 ∧ x ≠ 10 ∧ x ≠ 13 := by
+    intro r hr c hc
+    obtain ⟨i, hi, hci⟩ := List.getElem_of_mem hc
+    have hil : i < sks.length := by rw [← hrect r hr]; exact hi
+    have hmem : c ∈ columnOf rows i := by
+      unfold columnOf
+      simp only [List.mem_filterMap]
+      exact ⟨r, hr, by rw [List.getElem?_eq_getElem hi, hci]⟩
+    exact cellText_bytes_fit _ c (hfit i sks[i] (List.getElem?_eq_getElem hil) c hmem)
+  obtain ⟨texts, htexts⟩ : ∃ t, t = rows.map (fun r => r.map cellText) := ⟨_, rfl⟩
+  have hbs : dumpDelimited sks.length rows = unlines (texts.map (joinWith 9)) := by
+    rw [dump_canonical sks.length hn rows hrect, dumpSpec_unlines, htexts]
+  have htne : ∀ t ∈ texts, t ≠ [] := by
+    intro t ht
+    rw [htexts] at ht
+    simp only [List.mem_map] at ht
+    obtain ⟨r, hr, rfl⟩ := ht
+    intro h0
+    have h1 : (r.map cellText).length = 0 := by rw [h0]; rfl
+    rw [List.length_map, hrect r hr] at h1
+    omega
+  have hfree : ∀ t ∈ texts, ∀ f ∈ t, ∀ x ∈ f, x ≠ 9 ∧ x ≠ 10 ∧ x ≠ 13 := by
+    intro t ht f hf
+    rw [htexts] at ht
+    simp only [List.mem_map] at ht
+    obtain ⟨r, hr, rfl⟩ := ht
+    simp only [List.mem_map] at hf
+    obtain ⟨c, hc, rfl⟩ := hf
+    exact hcell r hr c hc
+  have hlinefree : ∀ l ∈ texts.map (joinWith 9), 10 ∉ l ∧ 13 ∉ l := by
+    intro l hl
+    simp only [List.mem_map] at hl
+    obtain ⟨t, ht, rfl⟩ := hl
+    constructor
+    · intro hm
+      rcases joinWith_mem 9 t 10 hm with h | ⟨f, hf, hxf⟩
+      · omega
+      · exact (hfree t ht f hf 10 hxf).2.1 rfl
+    · intro hm
+      rcases joinWith_mem 9 t 13 hm with h | ⟨f, hf, hxf⟩
+      · omega
+      · exact (hfree t ht f hf 13 hxf).2.2 rfl
+  have hlines : linesOf (dumpDelimited sks.length rows) = texts.map (joinWith 9) := by
+    rw [hbs]; exact C02.linesOf_unlines _ (fun l hl => (hlinefree l hl).1)
+  have htexts_ne : texts ≠ [] := by rw [htexts]; simpa using hrows
+  have hnocr : ∀ l ∈ linesOf (dumpDelimited sks.length rows), l.getLast? ≠ some 13 := by
+    intro l hl
+    rw [hlines] at hl
+    intro h13
+    exact (hlinefree l hl).2 (List.mem_of_getLast? h13)
+  have hspl : C02.specLines (dumpDelimited sks.length rows) = texts.map (joinWith 9) := by
+    unfold C02.specLines
+    simp only
+    rw [hlines]
+    split
+    · rename_i h
+      obtain ⟨l0, lrest, hl0⟩ : ∃ l0 lrest, texts.map (joinWith 9) = l0 :: lrest := by
+        cases h' : texts.map (joinWith 9) with
+        | nil => simp at h'; exact absurd h' htexts_ne
+        | cons a b => exact ⟨a, b, rfl⟩
+      have := (List.all_eq_true.mp h.2) l0 (by rw [hl0]; simp)
+      have h13 : l0.getLast? = some 13 := by simpa using this
+      exact absurd h13 (hnocr l0 (by rw [hlines, hl0]; simp))
+    · rfl
+  have hrecs : (texts.map (joinWith 9)).map (splitOn 9) = texts := by
+    rw [List.map_map]
+    conv => rhs; rw [← List.map_id texts]
+    apply List.map_congr_left
+    intro t ht
+    simp only [Function.comp, id]
+    exact splitOn_joinWith 9 t (htne t ht) (fun f hf hm => (hfree t ht f hf 9 hm).1 rfl)
+  have hlenrows : (linesOf (dumpDelimited sks.length rows)).length = rows.length := by
+    rw [hlines, htexts]; simp
+  have := C02.parse_delimited S sks (dumpDelimited sks.length rows) hk (by rw [hS]; decide) (by rw [hS]; decide)
+    (by rw [hlines]; simpa using htexts_ne) (Or.inl hnocr)
+    (by
+      intro l hl
+      rw [hspl] at hl
+      simp only [List.mem_map] at hl
+      obtain ⟨t, ht, rfl⟩ := hl
+      rw [hS, splitOn_joinWith 9 t (htne t ht) (fun f hf hm => (hfree t ht f hf 9 hm).1 rfl)]
+      rw [htexts] at ht
+      simp only [List.mem_map] at ht
+      obtain ⟨r, hr, rfl⟩ := ht
+      simp [hrect r hr])
+    (colsFrom rows 0 sks)
+    (by
+      rw [hspl, hS, hrecs, htexts]
+      exact specColumnsFrom_cells rows sks 0 hmod (by simpa using hfit))
+  rw [hlenrows] at this
+  exact this
+
 /-! ### non-vacuity -/
 
 example : Additive (fun rows => dumpSpec 9 (rows.map (·.map cellText))) := by
@@ -824,5 +1122,11 @@ example : lineLens 80 161 = [80, 80, 1] := by decide +kernel
 
 -- float_partial: "-2.5e-05"
 example : [45, 50, 46, 53, 101, 45, 48, 53].all floatChar = true := by decide
+
+-- write_read_model: BED3-like schema, two rows
+example : Gen.C02.bed3.cols.map (·.2) = ["id", "int", "int"].map C02.normKind ∧ Gen.C02.bed3.delim = 9 := by decide
+example : (match C02.parseDelimited Gen.C02.bed3 (dumpDelimited 3 [[Cell.text [99], Cell.int 1, Cell.int 22], [Cell.text [120, 121], Cell.int 333, Cell.int 4]]) with
+    | .ok r => r == (2, colsFrom [[Cell.text [99], Cell.int 1, Cell.int 22], [Cell.text [120, 121], Cell.int 333, Cell.int 4]] 0 ["id", "int", "int"])
+    | .error _ => false) = true := by decide +kernel
 
 end C03
